@@ -33,6 +33,20 @@ Proof.
 Qed.
 Theorem other_predicate_nothing u : triples_for inv c false u = [].
 Proof. reflexivity. Qed.
+(* the statement of the property itself: whatever compress and expand_all answer, the graph yields the syntactically valid
+   members of expand_all(compress(u)), and nothing when compress gives None *)
+Theorem triples_relative is_pred u : H_d d rs ->
+  triples_for inv c is_pred u =
+  rel_answer inv is_pred (match compress c u false false with
+                          | Val (Some x) => match expand_all c x false with Val o => o | Raise _ => None end
+                          | _ => None end).
+Proof.
+  intro Hd. unfold triples_for, rel_answer. destruct is_pred; [|reflexivity].
+  destruct (compress c u false false) as [[x|]|e] eqn:E.
+  - destruct (equivalents_expand_all u x Hd E) as (l & El & Eq). rewrite El. exact Eq.
+  - apply unrecognised_nothing. destruct (is_uri c u) eqn:I; auto. apply (C07_is_uri _ _ _ Hc) in I. congruence.
+  - exfalso. rewrite (A_compress _ _ _ Hc), wrap_default in E. discriminate.
+Qed.
 End O.
 
 (* ---- q-values ---- *)
